@@ -30,6 +30,8 @@ Modules == {
    items |-> J("s1", Elem(TagComp("Foo", FALSE, Undef), <<>>, <<ChExpr(Ident("cu", FALSE, PVNode("pv"))), ChText(<<"a">>)>>))],
   [id |-> "customtag", uses |-> {"customtag"}, lang |-> "jsx",
    items |-> J("s1", Elem(TagCustom("i-foo"), <<Plain("a", AvStr(<<"a">>))>>, <<ChText(<<"b">>)>>))],
+  [id |-> "widget", uses |-> {"objslot"}, lang |-> "jsx",       \* no single pattern matches `Widget`
+   items |-> J("s1", Elem(TagCustom("Widget"), <<>>, <<ChExpr(Ident("cu", FALSE, PVNode("pv")))>>))],
   [id |-> "othertag", uses |-> {}, lang |-> "jsx",
    items |-> J("s1", Elem(TagCustom("x-bar"), <<>>, <<ChText(<<"b">>)>>))],
   [id |-> "nojsx", uses |-> {}, lang |-> "jsx", items |-> << [k |-> "raw", text |-> "const q = 1;\nexport default q;"] >>],
